@@ -123,6 +123,50 @@ func VerifH_C04_CheckpointCoversEverythingParallel() {
 	verifCheckpointScenario(2, 1)
 }
 
+// Slow sampling: every sample blocks until the checkpoint was taken, so all
+// worker slots (catch-up and recent) stay busy while 2..3 consecutive new
+// heads arrive - the coordinator has to drop recent jobs - and then a
+// checkpoint is requested: the dropped heads must still be covered.
+//
+//verif:opts nodeadlock preempt=1 threads=10 maxwall=1500 cover=checkpointed,busy
+func VerifH_C04_HeadsWhileAllWorkersAreBusy() {
+	start := nd.U64("start")
+	nd.Assume(start >= 1 && start < 1<<62)
+	head := start + uint64(nd.Choice(2, "backlog")) // nothing or one height to catch up
+	gate := make(chan struct{})
+	g := &verifGhost{}
+	slow := func(ctx context.Context, h *header.ExtendedHeader) error {
+		select {
+		case <-gate:
+		case <-ctx.Done():
+			return ctx.Err()
+		}
+		g.sampled = append(g.sampled, h.Height())
+		return nil
+	}
+	sc := newSamplingCoordinator(verifParams(1), verifGetter{}, slow)
+	ctx, cancel := context.WithCancel(context.Background())
+	defer cancel()
+	go sc.run(ctx, checkpoint{SampleFrom: start, NetworkHead: head})
+	nd.RunOthers() // the initial jobs are handed to workers, which block on the gate
+
+	n := 2 + nd.Choice(2, "heads")
+	for i := 0; i < n; i++ {
+		head++
+		sc.listen(ctx, verifHeader(head))
+		nd.RunOthers()
+	}
+	nd.Cover("busy")
+	cp, err := sc.getCheckpoint(ctx)
+	nd.Assert(err == nil, "checkpoint-available")
+	nd.Cover("checkpointed")
+	h := nd.U64("h")
+	nd.Assume(start <= h && h <= cp.NetworkHead)
+	nd.Assert(g.covered(cp, h), "checkpoint-covers-unsampled-height")
+	nd.Assert(cp.NetworkHead == head, "network-head-tracked")
+	close(gate)
+}
+
 func verifCheckpointScenario(limit, heads int) {
 	start := nd.U64("start")
 	nd.Assume(start >= 1 && start < 1<<62)
